@@ -34,6 +34,7 @@ import Props.C01_spelling
 #print axioms SpyneModel.Props.C01ext.argsOf_empty
 #print axioms SpyneModel.Props.C01ext.argsOf_wrapped
 #print axioms SpyneModel.Props.C01ext.response_fidelity_any_style
+#print axioms SpyneModel.Props.C01ext.bare_nothing_is_the_empty_response
 #print axioms SpyneModel.Props.C01ext.multiple_returns_in_order
 #print axioms SpyneModel.Props.C01ext.client_packs_every_keyword
 #print axioms SpyneModel.Props.C01ext.client_call_fidelity
@@ -44,3 +45,4 @@ import Props.C01_spelling
 #print axioms SpyneModel.Props.C01spelling.text_pieces_and_cdata_denote_the_text
 #print axioms SpyneModel.Props.C01spelling.respelled_child
 #print axioms SpyneModel.Props.C01spelling.chunked_bytes_written_as_concatenation
+#print axioms SpyneModel.Props.C01spelling.own_xsi_type_resolves_to_the_declared_class
